@@ -80,3 +80,27 @@ def record(ck, texts, impl_outs, what):
                        broken="correspondence T1/parser; the theorems about accepted inputs (C13_accepted_is_shaped, C13_front_end_total and the C15 class theorems) are about a parser the code no longer matches"),
                   no_input=True)
     return bad
+
+
+def light_tie(ck, what):
+    """The parser tie on VALID-LOOKING inputs only (repository corpus, edge patterns, the expression zoo, seeded generated patterns; no
+    mutations): a few thousand inputs, a few seconds.  Every check whose specification reads patterns with the model parser runs it, so
+    that a change of the real parser that matters to verdicts, locations or labels is at least a broken correspondence there."""
+    import random
+    import corpus
+    import t2
+    rng = random.Random("light-tie/%d" % ck.seed)
+    texts = [t for _, t in corpus.repo_invocations()] + t2.EDGE + t2.ZOO + t2.gen_texts(rng, 300 if ck.tier == "quick" else 3000)
+    seen = set()
+    texts = [t for t in texts if not (t in seen or seen.add(t))]
+    outs = ck.rt_batch(["run " + hexs(t) for t in texts], binary="inproc", harness="inproc")
+    bad, dist = compare(ck, texts, outs)
+    ck.corr_record("T1 parser model on valid-looking inputs (Parse.lean against the real parser: accept / reject, AST with every span, value tokens, node counter) - " + what,
+                   len(texts), len([1 for o in outs if o.startswith("ok")]), len(bad), dist,
+                   samples=[dict(invocation=texts[k][:160], kind=kind, detail=d[:300]) for k, kind, d in bad[:4]],
+                   rule="repository corpus + edge patterns + expression zoo + seeded generated patterns, unmutated; non-trivial = accepted inputs")
+    if bad:
+        k, kind, d = bad[0]
+        ck.report("corr:T1-parser", "the parser model no longer matches the real parser (%s): the specification of this check reads patterns with the model parser" % kind,
+                  dict(invocation="assert_struct!(%s)" % texts[k], kind=kind, detail=d, disagreements=len(bad), broken="correspondence T1/parser"), no_input=True)
+    return bad
